@@ -209,6 +209,9 @@ func c05Worker(maxN, from int) int {
 	return 0
 }
 
+// (pattern, unit) pairs for which the current run measured superlinear work or a timeout
+var c05Superlinear = map[string]bool{}
+
 func checkC05(r *Report, known []Finding) {
 	r.Rule = "work = sum of executed basic blocks of library code (coverage counters, atomic mode, cleared around ONE call; minimum over up to three identical calls, which removes one-off initialisation work) for Match / FindIndex / FindSubmatchIndex on adversarial families " +
 		"(near-miss repetitions per strategy: candidate-dense inputs, overlapping classes, repeated suffixes, digit runs, classic ReDoS shapes) at n = 512 … 8192 (32768 thorough); the property's own shape " +
@@ -274,6 +277,7 @@ func checkC05(r *Report, known []Finding) {
 		case "TIMEOUT":
 			timeouts = append(timeouts, l)
 			k := key{f[1], f[2], f[3], f[4]}
+			c05Superlinear[k.pat+"\x00"+k.unit] = true
 			attrs := map[string]string{"strategy": f[3], "kind": "superlinear", "api": f[4]}
 			if kf := matchKnown(known, "C05", attrs); kf != nil {
 				r.Known(kf, map[string]string{"pattern": k.pat, "unit": k.unit, "api": k.api, "n": f[6], "result": "timeout 20s"})
@@ -327,6 +331,7 @@ func checkC05(r *Report, known []Finding) {
 			continue
 		}
 		t.Disagreements++
+		c05Superlinear[k.pat+"\x00"+k.unit] = true
 		attrs := map[string]string{"strategy": k.strat, "kind": "superlinear", "api": k.api}
 		if kf := matchKnown(known, "C05", attrs); kf != nil {
 			r.Known(kf, map[string]string{"pattern": k.pat, "unit": k.unit, "api": k.api, "ratio": fmt.Sprintf("%.2f", worst)})
@@ -354,6 +359,7 @@ func checkC05(r *Report, known []Finding) {
 }
 
 func init() {
-	// a work finding is re-measured by the run of the check itself (deterministic counters); the witness always "still fails" unless the run says otherwise
-	exampleReplayers["work"] = func(f Finding) bool { return true }
+	// a work finding is re-measured by the run of the check itself (deterministic counters): its example still fails iff this run
+	// measured superlinear work (or a timeout) for the example's (pattern, input family)
+	exampleReplayers["work"] = func(f Finding) bool { return c05Superlinear[f.Example["pattern"]+"\x00"+f.Example["unit"]] }
 }
